@@ -13,7 +13,7 @@ from .. import prog as PG
 FWD_FAMILIES = PG.FAMILIES_ALL + PG.FAMILIES_FWD_ONLY
 FWD_SINGLE = ['un', 'kink', 'special', 'unp', 'unfwd', 'bin', 'bcast', 'binc', 'pow', 'neg', 'abs', 'minmax', 'get', 'T', 'reshape', 'buf', 'set',
               'rmw', 'sum', 'prod', 'trace', 'dot', 'dotc', 'outer', 'inv', 'solve', 'det', 'logdet', 'expm', 'qr', 'chol', 'eigh',
-              'svd', 'svdfull', 'lu', 'fft', 'tile', 'diag', 'tri', 'symvec']
+              'svd', 'svdfull', 'lu', 'fft', 'tile', 'diag', 'tri', 'symvec', 'umax']
 REV_SINGLE = ['un', 'kink', 'special', 'unp', 'bin', 'bcast', 'binc', 'pow', 'neg', 'get', 'T', 'reshape', 'buf', 'set', 'rmw', 'sum', 'prod', 'trace',
               'dot', 'dotc', 'outer', 'inv', 'solve', 'det', 'logdet', 'qr', 'chol', 'eigh', 'svd', 'lu', 'fft', 'tile', 'diag',
               'symvec']
@@ -118,7 +118,7 @@ def meta_cases(draw, tier, first=None, families=None, max_len=6, reverse_mode=Fa
     D = draw(st.sampled_from([d for d in [4, 3, 5, 6, 7, 2, 1] if Dmin <= d <= Dmax]))
     P = draw(st.sampled_from([p for p in [2, 3, 1] if p >= Pmin]))
     case['D'], case['P'] = D, P
-    case['hi'] = [draw(gen.float_array((D - 1, P) + p.shape[1:], gen.coeff_elements(1.0))) for p in pr['pts']]
+    case['hi'] = [draw(gen.higher_coeffs((D - 1, P) + p.shape[1:], gen.coeff_elements(1.0))) for p in pr['pts']]
     case['althi'] = [draw(gen.float_array((D - 1,) + p.shape[1:], gen.coeff_elements(1.0))) for p in pr['pts']]
     case['q'] = draw(st.integers(0, P - 1))
     if reverse_mode:
